@@ -165,7 +165,7 @@ PROPOSED_FINDINGS = [
      "what": "two definition files with the same name and version but different layouts (ns/A.1.0.dsdl empty + ns/6200.A.1.0.dsdl with a field): a bare AssertionError "
              "escapes from read_namespace (assert a.version.minor != b.version.minor) instead of an InvalidDefinitionError",
      "case": _ns([("A.1.0.dsdl", _S), ("6200.A.1.0.dsdl", _S8)])},
-    {"property": "C15", "suite": "ns", "signature": "C15/outcome-depends-on-spelling-order-or-seed", "status": "open-excluded-from-generation",
+    {"property": "C15", "suite": "ns", "signature": "C15/outcome-depends-on-spelling-order-or-seed", "status": "fixed:1e7d19c",
      "what": "read_files with a root namespace directory spelled '.' (the working directory is that root) listed before the root of a relative target that lies "
              "under ANOTHER root: cwd=<t>/w0/alpha; read_files(['../../w1/beta/A.1.0.dsdl'], ['.', '<t>/w1/beta']) -> bare ValueError \"'<t>/w1/beta/A.1.0.dsdl' is not in "
              "the subpath of '<t>/w0/alpha'\" (inference 2 matches every relative target against Path('.') as a pure path); with the roots in the other order, or "
